@@ -107,15 +107,6 @@ func checkCase(c sh.Case) (o pbt.Outcome) {
 	knownF1 := ""
 	body := func(st sh.Step, s int, m *model, evs []fakemysql.Event, disconnect bool) {
 		if st.IOErr != "" {
-			if m.doomed >= 0 && (strings.Contains(st.IOErr, "EOF") || strings.Contains(st.IOErr, "reset") || strings.Contains(st.IOErr, "broken pipe")) {
-				if knownF1 == "" {
-					knownF1 = fmt.Sprintf("step %d (session %d, %s %q): the proxy dropped the client (%s): the namespace changed while it was outside a transaction, its next command (step %d, entering a transaction) was answered OK and then the session was closed", st.Idx, s, st.Cmd.K, st.SQL, st.IOErr, m.doomed)
-				}
-				lab["disconnected_after_ok_begin_following_change"] = true
-				m.alive = false
-				dropPins(m, "client disconnected by the proxy", st)
-				return
-			}
 			fail(st, "the proxy dropped the client without a configuration change inside a transaction or an injected fault (%s)", st.IOErr)
 			return
 		}
@@ -231,8 +222,17 @@ func checkCase(c sh.Case) (o pbt.Outcome) {
 		newPins = map[string]sh.ConnKey{}
 		evs := sh.SessionEvents(st.Events, cls)
 		disconnect := st.Cmd.K == sh.KQuit || st.Cmd.K == sh.KDrop || st.Cmd.K == sh.KDropFlight
+		// second symptom of C23-F1: the session was closed right after its OK-answered BEGIN / SET autocommit=0
+		if m.doomed >= 0 && st.IOErr != "" && (strings.Contains(st.IOErr, "EOF") || strings.Contains(st.IOErr, "reset") || strings.Contains(st.IOErr, "broken pipe")) {
+			if knownF1 == "" {
+				knownF1 = fmt.Sprintf("step %d (session %d, %s %q): the proxy dropped the client (%s): the namespace changed while it was outside a transaction, its next command (step %d, entering a transaction) was answered OK and then the session was closed", st.Idx, s, st.Cmd.K, st.SQL, st.IOErr, m.doomed)
+			}
+			lab["disconnected_after_ok_begin_following_change"] = true
+			m.alive, m.pending = false, false
+			dropPins(m, "client disconnected by the proxy", st)
+		}
 		// first command after a configuration change
-		if m.pending && !disconnect {
+		if m.alive && m.pending && !disconnect {
 			m.pending = false
 			switch {
 			case m.inTxAtChange:
